@@ -354,11 +354,11 @@ func (ps *sparser) typeText() string {
 		ps.fail("expected type, got %q", t.text)
 	}
 	s := t.text
-	if s == "seq" {
+	if s == "seq" || s == "heap" {
 		ps.expectOp("[")
 		in := ps.typeText()
 		ps.expectOp("]")
-		return "seq[" + in + "]"
+		return s + "[" + in + "]"
 	}
 	if ps.isOp(".") {
 		ps.next()
@@ -522,6 +522,7 @@ type Contract struct {
 	PanicsWhen []Clause
 	MinObl     int
 	Pure       bool // no heap effects at all (no allocation either)
+	Lemmas     []string // auto lemmas assumed (as quantified facts) while verifying this function
 	Allocates  []string
 	Where      string
 }
@@ -547,6 +548,8 @@ type Lemma struct {
 	Uses     []Clause
 	Floats   string
 	Trusted  bool
+	Triggers []string
+	AutoUses []string
 	Pkg      string
 	Where    string
 }
@@ -574,7 +577,7 @@ var clauseKW = map[string]bool{
 	"func": true, "ghost": true, "lemma": true, "axiom": true, "requires": true, "ensures": true,
 	"modifies": true, "invariant": true, "decreases": true, "loop": true, "floats": true,
 	"inline": true, "trusted": true, "panics": true, "at": true, "use": true, "obligations": true,
-	"induction": true, "nosafety": true, "withinlen": true, "allocates": true, "pure": true, "package": true, "opaque": true,
+	"induction": true, "nosafety": true, "withinlen": true, "allocates": true, "trigger": true, "lemmas": true, "pure": true, "package": true, "opaque": true,
 }
 
 // ParseSpecText parses contract text (already stripped of //@ prefixes); pkg is the
@@ -792,6 +795,21 @@ func (ss *SpecSet) ParseSpecText(lines []string, wheres []string, pkg string) er
 		case "nosafety":
 			if cur != nil {
 				cur.NoSafety = true
+			}
+		case "trigger":
+			if curLemma == nil {
+				return fmt.Errorf("%s: trigger outside lemma", rc.where)
+			}
+			curLemma.Triggers = append(curLemma.Triggers, strings.TrimSpace(rc.text))
+		case "lemmas":
+			if cur != nil {
+				for _, a := range splitTopComma(rc.text) {
+					cur.Lemmas = append(cur.Lemmas, strings.TrimSpace(a))
+				}
+			} else if curLemma != nil {
+				for _, a := range splitTopComma(rc.text) {
+					curLemma.AutoUses = append(curLemma.AutoUses, strings.TrimSpace(a))
+				}
 			}
 		case "withinlen":
 			if cur != nil {
